@@ -193,9 +193,16 @@ func (p *Program) background(d *Decls) []*T {
 		out = append(out, Forall([]*T{r}, pattern(Eq(App("inv_"+n, SInt, app), r), app)))
 		out = append(out, Forall([]*T{r}, pattern(Eq(App("refkind", SInt, app), IntLit(int64(p.subRefs[n]))), app)))
 		out = append(out, Forall([]*T{r}, pattern(Ne(app, IntLit(0)), app)))
-		if d.Has("Alloc!0") {
-			// a nested struct is allocated exactly when its owner is
-			a0 := Sym("Alloc!0", ArrSort(SInt, SBool))
+		// a nested struct is allocated exactly when its owner is (in every allocation map the query mentions)
+		var allocs []string
+		for nm, srt := range d.consts {
+			if strings.HasPrefix(nm, "Alloc!") && srt == ArrSort(SInt, SBool) {
+				allocs = append(allocs, nm)
+			}
+		}
+		sort.Strings(allocs)
+		for _, nm := range allocs {
+			a0 := Sym(nm, ArrSort(SInt, SBool))
 			out = append(out, Forall([]*T{r}, pattern(Eq(Select(a0, app), Select(a0, r)), app)))
 		}
 	}
@@ -267,6 +274,12 @@ func runSolver(ctx context.Context, name string, args []string, file string) sol
 
 // solveOne races the solvers on one obligation.
 func (p *Program) solveOne(ob *Obligation, cfg SolverCfg, idx int) {
+	if ob.Unbound != "" {
+		ob.Verdict = "unbound"
+		ob.Solver = "binder"
+		ob.SolverNotes = "clause does not bind to the current code: " + ob.Unbound
+		return
+	}
 	// conjunctive goals are discharged conjunct by conjunct (smaller queries, better diagnostics)
 	if !ob.Vacuity && ob.Goal.Op == "=>" && len(ob.Goal.Args) == 2 && ob.Goal.Args[1].Op == "and" {
 		// A => (B1 && B2 ...) is split into A => Bi
